@@ -1,7 +1,7 @@
 (** agreement with the repaired model implies the spec on the implementation's observations *)
 From Coq Require Import List ZArith NArith Bool Lia.
 From DH Require Import Lib.CheckLib Model.Store Proofs.StoreProofs Model.FeedSpec Model.DsManager Model.Gc
-     Proofs.DsManagerProofs Proofs.DsRefine Check.C07Check.
+     Proofs.DsManagerProofs Proofs.DsRefine Model.NameCodec Check.C07Check.
 Import ListNotations.
 Open Scope Z_scope.
 
@@ -143,6 +143,9 @@ Fixpoint wit (c : scand) (ops : list cop) : Prop :=
     | CRestart => wit (s, []) ops'
     | CCrash m k => wit (s, []) ops' \/ wit (s_mop m s, []) ops'
     | CQuery q oa => answer_matches (sobs s q) oa = true /\ wit c ops'
+    | CHttp meth seg to oc =>
+      (if Z.eqb meth 1 && s_has (http_name seg) s then 1 else s_outcome (http_mop meth seg to) s) = oc
+      /\ wit (s_mop (http_mop meth seg to) s, sh_mop (http_mop meth seg to) s hs) ops'
     | CHold slot n oc => (if s_has n s then 0 else 1) = oc
                          /\ wit (if s_has n s then (s, (slot, Some n) :: hs) else c) ops'
     | CStale slot ents oc => (match assoc slot hs with Some _ => 0 | None => 1 end) = oc
@@ -160,7 +163,7 @@ Proof.
   - destruct cands; [contradiction | reflexivity].
   - destruct cands as [|c0 cands']; [contradiction|]. cbn [spec_run].
     destruct o as [n ents oc | m oc | before after | | m k | q oa | slot n oc | slot ents oc
-                   | slot start pred inverse scope o | slot start pred inverse o]; cbn [wit] in W.
+                   | slot start pred inverse scope o | slot start pred inverse o | meth seg to oc]; cbn [wit] in W.
     + destruct W as [W1 W2]. apply (IH _ (s_write wef wdm n ents (fst c), snd c)); [|exact W2].
       apply (in_map (fun c => (s_write wef wdm n ents (fst c), snd c))). apply filter_In. split; [exact Hin|]. now apply Z.eqb_eq.
     + destruct W as [W1 W2]. apply (IH _ (s_mop m (fst c), sh_mop m (fst c) (snd c))); [|exact W2].
@@ -183,6 +186,10 @@ Proof.
       apply filter_In. split; [exact Hin|]. now apply Z.eqb_eq.
     + destruct W as (l & -> & W1 & W2). apply (IH _ c); [|exact W2]. apply filter_In. auto.
     + destruct W as (l & -> & W1 & W2). apply (IH _ c); [|exact W2]. apply filter_In. auto.
+    + destruct W as [W1 W2]. cbv zeta.
+      apply (IH _ (s_mop (http_mop meth seg to) (fst c), sh_mop (http_mop meth seg to) (fst c) (snd c))); [|exact W2].
+      apply (in_map (fun c => (s_mop (http_mop meth seg to) (fst c), sh_mop (http_mop meth seg to) (fst c) (snd c)))).
+      apply filter_In. split; [exact Hin|]. now apply Z.eqb_eq.
 Qed.
 
 (** census *)
@@ -318,7 +325,7 @@ Lemma agree_wit ops : forall h a hs, hfull h -> slots_ok h a hs -> agree_run v_f
 Proof.
   induction ops as [|o ops IH]; intros h a hs F S A; [exact I|].
   destruct o as [n ents oc | m oc | before after | | m k | q oa | slot n oc | slot ents oc
-                 | slot start pred inverse scope o | slot start pred inverse o]; cbn [agree_run wit fst snd] in *.
+                 | slot start pred inverse scope o | slot start pred inverse o | meth seg to oc]; cbn [agree_run wit fst snd] in *.
   - pose proof (sim_step h (OWrite n ents) F) as [F' E]. cbn [step] in F', E.
     pose proof (write_mem v_fixed n ents h) as Wm.
     destruct (write v_fixed n ents h) as [h' r] eqn:W. cbn [fst] in *. apply andb_true_iff in A. destruct A as [A1 A2].
@@ -377,6 +384,14 @@ Proof.
     + apply andb_true_iff in A. destruct A as [A1 A2]. split; [|now apply (IH h a)].
       rewrite <- U. apply (subsetb_mono _ _ _ A1). intros x. apply rel_ids_unscoped.
     + destruct l; [|discriminate]. split; [reflexivity | now apply (IH h a)].
+  - (* dataset management over HTTP *)
+    set (m := http_mop meth seg to) in *.
+    pose proof (sim_step h (OMop m) F) as [F' E]. cbn [step] in F', E.
+    pose proof (outcome_mop m h F) as OC. pose proof (slots_mop m h a hs F S) as S'.
+    destruct (run_mop v_fixed m h) as [h' r] eqn:W. cbn [fst snd] in *. apply andb_true_iff in A. destruct A as [A1 A2].
+    apply Z.eqb_eq in A1. split.
+    + rewrite (s_has_abs h _ (proj1 F)), <- OC. exact A1.
+    + rewrite <- E. now apply (IH h' a).
 Qed.
 
 Lemma habs0 : habs hub0 = sstate0.
